@@ -515,7 +515,7 @@ func ruleR36_2(c *Check) {
 	okk := false
 	sv.walk(func(x ast.Node) bool {
 		if as, ok := x.(*ast.AssignStmt); ok && len(as.Lhs) == 1 {
-			if id, ok := as.Lhs[0].(*ast.Ident); ok && id.Name == "keepTogether" {
+			if id, ok := as.Lhs[0].(*ast.Ident); ok && isBoolLocal(w, id) {
 				if tv := w.Info.Types[as.Rhs[0]]; tv.Value != nil && tv.Value.String() == "false" {
 					for _, g := range w.Guards(sv, as) {
 						if be, ok := g.Cond.(*ast.BinaryExpr); ok && be.Op == token.EQL && !g.Val && w.fieldOf(be.X) == ver {
